@@ -13,8 +13,8 @@ EXTENDS Tree, TLC, Json
 VARIABLES T, hist
 vars == <<T, hist>>
 
-Tok(k, hp, e) == [t |-> "D", k |-> k, p |-> IF hp THEN <<"/p">> ELSE <<>>, a |-> "", e |-> e, b |-> ""]
-CloseTok == [t |-> "C", k |-> ")", p |-> <<>>, a |-> "", e |-> FALSE, b |-> ""]
+Tok(k, hp, e) == [t |-> "D", k |-> k, p |-> IF hp THEN <<"/p">> ELSE <<>>, a |-> "", e |-> e, b |-> "", c |-> ""]
+CloseTok == [t |-> "C", k |-> ")", p |-> <<>>, a |-> "", e |-> FALSE, b |-> "", c |-> ""]
 
 Init == T = EmptyTree /\ hist = <<>>
 
